@@ -25,7 +25,9 @@
   * `walk_layout_mixed_x86_partial` — the x86 part of `walk_layout_mixed`: per-frame alternation of
     STACK WIN frames, frame-pointer frames and scanned frames (incl. the x86 scanner's `%ebp`
     recovery), any order, any depth. PARTIAL with respect to `walk_layout_mixed`: x86 only, and
-    frames found through canonical STACK CFI records are excluded (`techOK`).
+    frames found through canonical STACK CFI records are excluded (`techOK`). (The full statement,
+    with STACK CFI frames and for every context kind, is `walk_layout_mixed` / `walk_layout_mixed_x86`
+    in `MdProofs/C04Mixed.lean`.)
   * `FrameIs.spec` — what "one frame per generated call with …" means, read off a frame.
 
   Evaluation of the programs is C07's (`MdModel.Win`, theorems of `MdProofs/C07.lean` reused:
@@ -78,9 +80,8 @@ theorem walk_layout_mixed_x86_partial (os : Os) (w : World) (wins : List (List W
   simp only [PreW, Bool.and_eq_true, beq_iff_eq, Bool.or_eq_true] at hpre
   obtain ⟨⟨⟨⟨⟨⟨⟨hm, _⟩, hip⟩, hsp⟩, h64⟩, hwf⟩, _⟩, hp⟩ := hpre
   have hwf : ∀ r ∈ x86Regs, ctx.raw .x86 r ≤ U32MAX := by
-    rcases hwf with h | h
-    · simp at h
-    · simpa [List.all_eq_true] using h
+    have h : (Arch.x86.registers.all fun r => decide (ctx.raw .x86 r ≤ U32MAX)) = true := hwf
+    exact fun r hr => of_decide_eq_true (List.all_eq_true.mp h r hr)
   have h64' : ctx.m64 = false := by
     have : (Arch.x86 == Arch.mips64) = false := rfl
     rw [h64]; exact this
